@@ -15,6 +15,7 @@ import (
 	"strings"
 	"sync"
 
+	"github.com/ipld/go-ipld-prime/storage"
 	"github.com/ipld/go-ipld-prime/storage/fsstore"
 	"github.com/ipld/go-ipld-prime/zzverif/vos"
 
@@ -23,7 +24,7 @@ import (
 
 // WOp is one write operation of a history.
 type WOp struct {
-	Kind   string `json:"op"`     // put | stream
+	Kind   string `json:"op"`     // put | stream | putvec (storage.PutVec helper, Chunks segments) | helper-stream (storage.PutStream helper)
 	Key    string `json:"key"`
 	Chunks int    `json:"chunks"` // stream: number of Write calls
 	End    string `json:"end"`    // stream: commit | abandon | forget (never call the committer)
@@ -63,6 +64,7 @@ type controller struct {
 	faults []Fault
 	log    []string
 	sched  *core.Sched
+	cancel func() // cancels the writer's context (fault kind "cancel")
 }
 
 func (c *controller) Before(ev vos.Event) vos.Verdict {
@@ -85,6 +87,11 @@ func (c *controller) Before(ev vos.Event) vos.Verdict {
 		return v
 	}
 	switch f.Kind {
+	case "cancel":
+		// the caller's context is cancelled right before this call; the call itself is answered normally
+		if c.cancel != nil {
+			c.cancel()
+		}
 	case "crash-before":
 		v.Crash = true
 	case "crash-after":
@@ -149,8 +156,14 @@ func (w *world) store() (*fsstore.Store, error) {
 }
 
 // runHistory performs the writer's history; returns per-op acknowledgement (nil error) and whether the process died.
-func runHistory(s *fsstore.Store, h []WOp) (acked []bool, errs []error, died bool) {
-	ctx := context.Background()
+func runHistory(s *fsstore.Store, h []WOp, ctl *controller) (acked []bool, errs []error, died bool) {
+	ctx, cancel := context.WithCancel(context.Background())
+	defer cancel()
+	if ctl != nil {
+		ctl.mu.Lock()
+		ctl.cancel = cancel
+		ctl.mu.Unlock()
+	}
 	acked = make([]bool, len(h))
 	errs = make([]error, len(h))
 	defer func() {
@@ -168,8 +181,26 @@ func runHistory(s *fsstore.Store, h []WOp) (acked []bool, errs []error, died boo
 		case "put":
 			errs[i] = s.Put(ctx, op.Key, append([]byte(nil), c...))
 			acked[i] = errs[i] == nil
-		case "stream":
-			w, commit, err := s.PutStream(ctx)
+		case "putvec":
+			var vec [][]byte
+			for part := 0; part < op.Chunks; part++ {
+				lo, hi := len(c)*part/op.Chunks, len(c)*(part+1)/op.Chunks
+				vec = append(vec, append([]byte(nil), c[lo:hi]...))
+			}
+			errs[i] = storage.PutVec(ctx, s, op.Key, vec)
+			acked[i] = errs[i] == nil
+		case "helper-put":
+			errs[i] = storage.Put(ctx, s, op.Key, append([]byte(nil), c...))
+			acked[i] = errs[i] == nil
+		case "stream", "helper-stream":
+			var w io.Writer
+			var commit func(string) error
+			var err error
+			if op.Kind == "stream" {
+				w, commit, err = s.PutStream(ctx)
+			} else {
+				w, commit, err = storage.PutStream(ctx, s)
+			}
 			if err != nil {
 				errs[i] = err
 				continue
@@ -293,7 +324,7 @@ func RunCase(c Case) (fs []core.Finding, calls int, log []string) {
 	var acked []bool
 	var errs []error
 	var died bool
-	pan := core.Guard(func() { acked, errs, died = runHistory(s, c.History) })
+	pan := core.Guard(func() { acked, errs, died = runHistory(s, c.History, w.ctl) })
 	if pan != "" {
 		return []core.Finding{core.F("panic("+core.Class(pan)+")", "history %v faults %v: %s", c.History, c.Faults, pan)}, w.ctl.n, w.ctl.log
 	}
@@ -334,6 +365,11 @@ func histories(quick bool) [][]WOp {
 		{put("k1"), st("AAAAAk1", 2, "commit")},
 		{st("k2", 2, "abandon"), put("k2")},
 		{put("k2"), st("k2", 2, "commit")},
+		// through the storage.* helper functions (what a link system and most callers use)
+		{WOp{"putvec", "k1", 3, ""}},
+		{WOp{"putvec", "k1", 1, ""}},
+		{WOp{"helper-stream", "k1", 2, "commit"}},
+		{WOp{"helper-put", "k2", 0, ""}, WOp{"putvec", "k2", 2, ""}},
 	}
 	if !quick {
 		hs = append(hs,
@@ -348,12 +384,12 @@ func histories(quick bool) [][]WOp {
 
 var collMu sync.Mutex
 
-var errnos = []string{"EIO", "ENOSPC", "EEXIST", "ENOENT", "EACCES", "short"}
+var errnos = []string{"EIO", "ENOSPC", "EEXIST", "ENOENT", "EACCES", "short", "cancel"}
 
 func Main(r *core.Run) {
 	quick := r.Quick()
 	hs := histories(quick)
-	r.Rule("real fsstore on a real directory per execution; for every history (1–3 writes: Put, PutStream with 1–3 chunk writes then commit / abandon / never commit, same key twice, keys with and without shared shard directories, first write into a fresh store): the process dies before and after every filesystem call of the history and after every prefix of every Write (quick: 0,1,n/2,n-1 bytes); every filesystem call answered with each of EIO/ENOSPC/EEXIST/ENOENT/EACCES/short write (thorough: every pair of faults); then a new process re-opens the directory: every key absent or complete, Has agrees, acknowledged writes present, no partial file outside the staging directory, Put+Get of every key works. Schedules: 2–3 threads (writer/writer same key, different keys same/different shard, writer/reader, writer/Has) with a scheduling point before every filesystem call, all interleavings up to the preemption bound, invariant evaluated by a raw-os observer after every step. Non-trivial = a fault or a preemption was applied; distinct by (history, fault set) / by schedule.")
+	r.Rule("real fsstore on a real directory per execution; for every history (1–3 writes: Put, PutStream with 1–3 chunk writes then commit / abandon / never commit, the storage.Put / PutStream / PutVec helpers with 1–3 segments, same key twice, keys with and without shared shard directories, first write into a fresh store): the process dies before and after every filesystem call of the history and after every prefix of every Write (quick: 0,1,n/2,n-1 bytes); every filesystem call answered with each of EIO/ENOSPC/EEXIST/ENOENT/EACCES/short write, or preceded by the cancellation of the writer's context (thorough: every pair of faults); then a new process re-opens the directory: every key absent or complete, Has agrees, acknowledged writes present, no partial file outside the staging directory, Put+Get of every key works. Schedules: 2–3 threads (writer/writer same key, different keys same/different shard, writer/reader, writer/Has) with a scheduling point before every filesystem call, all interleavings up to the preemption bound, invariant evaluated by a raw-os observer after every step. Non-trivial = a fault or a preemption was applied; distinct by (history, fault set) / by schedule.")
 	r.Assume("power loss (unsynced page cache) is not modelled: the property speaks of process death")
 	type job struct {
 		c Case
